@@ -331,6 +331,13 @@ def handle : Handler
       match res with
       | .ok fs => some ("ok " ++ showFiles fs)
       | .error e => some ("err " ++ e.show)) "bad-args"
+  -- save into a folder that holds the given files (earlier bundles, stray files): what the folder holds afterwards
+  | "c18.save_into", [fs, ds] => some <| Option.getD (do
+      let fs ← files? fs
+      let ds ← dataset? ds
+      match Persist.save fs (.dataset ds) with
+      | .ok fs' => some ("ok " ++ showFiles fs')
+      | .error e => some ("err " ++ e.show)) "bad-args"
   -- save_to_numpy_bundle into a folder that holds files already, then load_from_numpy_bundle (any listing order)
   | "c18.bundle_roundtrip", [fs, ds] => some <| Option.getD (do
       let fs ← files? fs
